@@ -138,6 +138,75 @@ def keyclean(p):
     return re.sub(r"\[\d+\]", "", p) or "/"
 
 
+def warm_owner_handles(it):
+    """
+    handles of every entity that has link lists, obtained BEFORE the delete and used for reading each list by
+    index, id and NAME: whatever such a handle (or its list objects) remembers must not outlive the delete
+    """
+    from vlib.interp import LINK_ROLES
+    kept = []
+    for e in it.ents:
+        if not e.alive or e.kind not in LINK_ROLES:
+            continue
+        try:
+            h = it.handle(e, "_raw")
+        except Exception:  # noqa
+            continue
+        lists = {}
+        for role in LINK_ROLES[e.kind]:
+            try:
+                lst = getattr(h, role)
+                members = [(x.id, x.name) for x in lst]
+                for mid, nm in members:
+                    lst[mid]
+                    lst[nm]
+                    nm in lst
+                lists[role] = (lst, members)
+            except Exception:  # noqa
+                pass
+        kept.append((e, h, lists))
+    return kept
+
+
+def kept_after_delete(kept, D, ctx, case, i, victim):
+    for e, h, lists in kept:
+        if e.id in D:
+            continue
+        for role, (lst, members) in lists.items():
+            gone = [(mid, nm) for mid, nm in members if mid in D]
+            if not gone:
+                continue
+            for which, lobj in (("kept-list", lst), ("kept-owner", None)):
+                try:
+                    L = lobj if lobj is not None else getattr(h, role)
+                    ids_now = [x.id for x in L]
+                except Exception as exc:  # noqa
+                    ctx.violation("C04/kept-handle/%s.%s/iteration-raises" % (e.kind, role), case,
+                                  {"op": i, "raised": type(exc).__name__, "through": which})
+                    continue
+                for mid, nm in gone:
+                    found = []
+                    if mid in ids_now:
+                        found.append("iteration")
+                    for how, key in (("id", mid), ("name", nm)):
+                        try:
+                            x = L[key]
+                            if x.id in D:
+                                found.append("lookup-by-" + how)
+                        except Exception:  # noqa
+                            pass
+                        try:
+                            if how == "id" and key in L:
+                                found.append("contains-id")
+                        except Exception:  # noqa
+                            pass
+                    if found:
+                        ctx.violation("C04/kept-handle/%s.%s/deleted-%s-still-yielded/%s" % (
+                            e.kind, role, victim.kind, found[0]), case,
+                            {"op": i, "through": which, "how": found, "deleted": nm, "victim": victim.path()})
+    return
+
+
 def run_case(case, ctx):
     path = os.path.join(ctx.workdir, "c04.nix")
     if os.path.exists(path):
@@ -185,7 +254,10 @@ def run_case(case, ctx):
                     classes.add("same-name-elsewhere")
                 if wild_dims:
                     classes.add("dim-link-target-deleted")
+                kept = warm_owner_handles(it)
                 st_ = it.step(op)
+                if st_ == "ok":
+                    kept_after_delete(kept, D, ctx, case, i, victim)
                 if st_ != "ok":
                     ctx.violation("C04/delete-refused/%s/%s" % (victim.kind, op.get("how", "name")), case,
                                   {"op": i, "status": st_, "msg": str(getattr(it, "last_exc", ""))[:150],
@@ -284,7 +356,7 @@ def case_strategy():
 
 
 def shards(tier, seed):
-    n, per = (16, 6) if tier == "quick" else (64, 80)
+    n, per = (16, 10) if tier == "quick" else (64, 80)
     return [{"n": per, "seed": seed * 1000 + i} for i in range(n)]
 
 
